@@ -1,5 +1,6 @@
 import XsVerif.Driver.CMJson
 import XsVerif.Model.Visitor
+import XsVerif.Model.DefaultOpen
 open Lean XsVerif.Driver XsVerif.Wildcard XsVerif.CM
 
 namespace XsVerif.Driver.C01
@@ -22,10 +23,26 @@ def handle (j : Json) : Except String Json := do
         | .ok g => (← g.getArr?).toList.mapM parseQN
         | .error _ => pure []
       pure (({ mode, wild := wp.pid, strict, globals } : OC), some leaf, nodes ++ wn)
+  -- optional: the open content above is the schema's defaultOpenContent; whether it applies to this
+  -- type is decided here by the spec-side rule: {"ate": appliesToEmpty, "mixed": …, "absent": no group child}
+  let dflt : Option (Bool × Bool × Bool) := match j.getObjVal? "dflt" with
+    | .ok (.null) | .error _ => none
+    | .ok d => some ((d.getObjValAs? Bool "ate").toOption.getD false,
+                     (d.getObjValAs? Bool "mixed").toOption.getD false,
+                     (d.getObjValAs? Bool "absent").toOption.getD false)
+  let content : Option Particle := match dflt with
+    | some (_, _, true) => none
+    | _ => some p
+  let applies : Bool := match dflt, wl with
+    | some (ate, mixed, _), some l => openContentApplies { mode := oc.mode, wild := l, appliesToEmpty := ate } mixed content
+    | _, _ => true
+  let oc : OC := if applies then oc else {}
   let A := mkArena n nodes
-  let lang (w : List QN) : Bool := match wl with
-    | none => inModel p w
-    | some l => Rx.accepts Leaf.matches (withOpen oc.mode l p.toRx) w
+  let lang (w : List QN) : Bool := match dflt, wl with
+    | some (ate, mixed, _), some l =>
+      Rx.accepts Leaf.matches (typeRx (some { mode := oc.mode, wild := l, appliesToEmpty := ate }) mixed content) w
+    | _, none => inModel p w
+    | _, some l => Rx.accepts Leaf.matches (withOpen oc.mode l p.toRx) w
   let words ← (← getArr j "words").toList.mapM fun w => do (← w.getArr?).toList.mapM parseQN
   let res := words.map fun w =>
     let v := childErrors A n p.pid w oc
@@ -35,7 +52,7 @@ def handle (j : Json) : Except String Json := do
       ("f", v.fuelOut),
       ("ee", Json.arr (en.errors.map fun e => Json.arr #[e.index, e.particle, e.occurs]).toArray),
       ("ef", en.fuelOut), ("es", encodeSilent A n p.pid w oc)]
-  return Json.mkObj [("r", Json.arr res.toArray)]
+  return Json.mkObj [("r", Json.arr res.toArray), ("ap", applies)]
 
 end XsVerif.Driver.C01
 
